@@ -327,12 +327,14 @@ class ClientSSM(SSM):
         self.invokeID = apdu.apduInvokeID
         if _debug: ClientSSM._debug("    - invoke ID: %r", self.invokeID)
 
-        # compute the segment count
-        if not apdu.pduData:
+        # compute the segment count, the fixed part of an unsegmented request
+        # takes four octets of the APDU, the fixed part of a segment takes six
+        if len(apdu.pduData) + 4 <= self.segmentSize:
             # always at least one segment
             self.segmentCount = 1
         else:
             # split into chunks, maybe need one more
+            self.segmentSize -= 6
             self.segmentCount, more = divmod(len(apdu.pduData), self.segmentSize)
             if more:
                 self.segmentCount += 1
@@ -812,12 +814,14 @@ class ServerSSM(SSM):
                 self.segmentSize = min(self.device_info.maxNpduLength, self.maxApduLengthAccepted)
             if _debug: ServerSSM._debug("    - segment size: %r", self.segmentSize)
 
-            # compute the segment count
-            if not apdu.pduData:
+            # compute the segment count, the fixed part of an unsegmented ack
+            # takes three octets of the APDU, the fixed part of a segment takes five
+            if len(apdu.pduData) + 3 <= self.segmentSize:
                 # always at least one segment
                 self.segmentCount = 1
             else:
                 # split into chunks, maybe need one more
+                self.segmentSize -= 5
                 self.segmentCount, more = divmod(len(apdu.pduData), self.segmentSize)
                 if more:
                     self.segmentCount += 1
